@@ -74,17 +74,30 @@ class Scenario:
         self.ref_shares = share_bodies(self.twin, self.si)
         self.ct = aes.encrypt_data(aes.create_encryptor(u.key), self.data)
         # optional pre-existing shares on the main grid (from a direct upload there, some deleted)
-        pre_mode = rng.choice(["none", "none", "none", "all", "some"])
+        pre_mode = rng.choice(["none", "none", "none", "all", "some", "dups"])
         pre = []
         if pre_mode != "none":
             g.run(g.uploader.upload(upload.Data(self.data, convergence=self.conv)))
             g.drain()
-            if pre_mode == "some":
-                keep = set(rng.sample(range(self.n), rng.randint(0, self.n - 1)))
+            if pre_mode in ("some", "dups"):
+                keep = set(rng.sample(range(self.n), rng.randint(0 if pre_mode == "some" else 1, self.n - 1)))
                 for sname, d in g.shares(self.si).items():
                     for shnum, p in d.items():
                         if shnum not in keep:
                             os.remove(p)
+            if pre_mode == "dups":
+                # server churn / earlier re-uploads: the share numbers that are left exist on several servers, so that there
+                # are at least N share files but fewer than N distinct shares
+                import shutil as _sh
+                from allmydata.storage.common import storage_index_to_dir
+                have = [(shnum, p) for sname, d in g.shares(self.si).items() for shnum, p in d.items()]
+                for sname, srv in g.servers.items():
+                    for shnum, p in have:
+                        bdir = os.path.join(srv.ss.sharedir, storage_index_to_dir(self.si))
+                        dst = os.path.join(bdir, str(shnum))
+                        if not os.path.exists(dst):
+                            os.makedirs(bdir, exist_ok=True)
+                            _sh.copyfile(p, dst)
             pre = sorted({shnum for d in g.shares(self.si).values() for shnum in d})
         # the helper
         hdir = os.path.join(self.dir, "helper")
